@@ -145,7 +145,9 @@ pub fn reference(filter: &str, s: &str, args: &[RV]) -> Exp {
         "append" => a0.and_then(as_str).map(|a| one(format!("{s}{a}"))).unwrap_or(Exp::Unasserted),
         "prepend" => a0.and_then(as_str).map(|a| one(format!("{a}{s}"))).unwrap_or(Exp::Unasserted),
         "upcase" => one(s.to_uppercase()),
-        "downcase" => one(s.to_lowercase()),
+        // "makes each character lowercase": the string-level mapping (final sigma rule) and the
+        // character-by-character mapping are both that
+        "downcase" => Exp::AnyOf(vec![st(&s.to_lowercase()), st(&s.chars().flat_map(char::to_lowercase).collect::<String>())]),
         "capitalize" => {
             let mut c = s.chars();
             one(match c.next() {
@@ -461,8 +463,39 @@ fn ints() -> Vec<i64> {
 }
 
 pub fn run(ctx: &Ctx) {
-    ctx.set_rule("E2: all strings of length <= 3 (thorough 4) over {a,B,space,LF,tab,',','<',e-acute,U+0301,emoji} as input, all strings of length <= 2 over the same alphabet and all integers in [-6,8] as arguments, for each of the 26 string filters; laws split|join, strip = lstrip.rstrip, truncate length bound, size(append); E1: random strings <= 200 chars and chains of 1..4 filters (one tag vs. stepwise vs. reference composition). Oracle: independent reference implementations over Vec<char> plus the algebraic laws; `truncate` accepted in either unit (chars or grapheme clusters). Non-trivial = input has a non-ASCII or whitespace symbol, or an integer argument at a boundary (<= 0 or >= length); distinct by (filter, input, args).");
+    ctx.set_rule("E2: all strings of length <= 3 (thorough 4) over {a,B,space,LF,tab,',','<',e-acute,U+0301,emoji} as input, all strings of length <= 2 over the same alphabet and all integers in [-6,8] as arguments, for each of the 26 string filters; all strings of length <= 3 over a second alphabet of characters whose case mappings change length or depend on context {a, Σ, σ, ß, İ, ı, ǆ, ﬁ, space, ŉ} for 15 case / measuring / cutting filter applications; laws split|join, strip = lstrip.rstrip, truncate length bound, size(append); E1: random strings <= 200 chars and chains of 1..4 filters (one tag vs. stepwise vs. reference composition). Oracle: independent reference implementations over Vec<char> plus the algebraic laws; `truncate` accepted in either unit (chars or grapheme clusters). Non-trivial = input has a non-ASCII or whitespace symbol, or an integer argument at a boundary (<= 0 or >= length); distinct by (filter, input, args).");
     ctx.assume("unasserted cells (empty search/separator, truncatewords on irregular whitespace, slice length < 1) are exercised for crashes only");
+    // characters whose case mappings change their length or depend on context, for every filter
+    // that maps case, measures or cuts: all strings of length <= 3 over this second alphabet
+    {
+        const CASE_ALPHA: [&str; 10] = ["a", "Σ", "σ", "ß", "İ", "ı", "ǆ", "ﬁ", " ", "ŉ"];
+        let filters: Vec<(&str, Vec<RV>)> = vec![
+            ("upcase", vec![]), ("downcase", vec![]), ("capitalize", vec![]), ("size", vec![]), ("first", vec![]), ("last", vec![]),
+            ("slice", vec![RV::Int(0), RV::Int(2)]), ("slice", vec![RV::Int(-1)]), ("slice", vec![RV::Int(1), RV::Int(5)]), ("truncate", vec![RV::Int(2), st("")]),
+            ("append", vec![st("ß")]), ("prepend", vec![st("İ")]), ("remove", vec![st("σ")]), ("replace", vec![st("ß"), st("ss")]), ("split", vec![st("ı")]),
+        ];
+        let nf = filters.len() as u64;
+        let n3 = 1 + 10 + 100 + 1000u64;
+        let filters = &filters;
+        ctx.exhaustive("case_mapping_alphabet", nf * n3, move |i| {
+            let d = decode(i, &[nf, n3])?;
+            let mut k = d[1];
+            let mut len = 0;
+            let mut span = 1u64;
+            while k >= span {
+                k -= span;
+                span *= 10;
+                len += 1;
+            }
+            let mut s = String::new();
+            for _ in 0..len {
+                s.push_str(CASE_ALPHA[(k % 10) as usize]);
+                k /= 10;
+            }
+            let (f, args) = &filters[d[0] as usize];
+            Some(Case { filter: f.to_string(), input: st(&s), args: args.clone() })
+        }, oracle);
+    }
     let maxlen = ctx.pick(3, 4);
     let ns = strings_upto(maxlen);
     let na = strings_upto(2);
